@@ -97,4 +97,18 @@ theorem genTot_le_mint (s : St) : genTot s ≤ mintAmount s := by
 @[simp] theorem genCache_rps (s : St) (c : Cache) :
     (genCache s c).rps = c.rps + rpsInc s.dsc (genTot s - genCut s (genTot s)) c.supply := rfl
 
+/-! ### the boosted claim without a config (repaired `None` branch of `claim_boosted_yields_rewards`, F6) -/
+
+/-- no boosted-yields config: nothing is paid, the boosted storage is untouched, and the weekly
+    storage is the one `update_energy_and_progress(user)` leaves -/
+theorem claimBoostedYields_none_spec {s : St} {user farmAmt : Nat} {r : Weekly.St × B × Nat}
+    (hc : s.b.cfg = none) (h : claimBoostedYields s user farmAmt = some r) :
+    r.2.1 = s.b ∧ r.2.2 = 0 ∧
+      updateEnergyAndProgress s.w user s.week (Energy.queried (s.energy user) s.epoch) = some r.1 := by
+  unfold claimBoostedYields at h
+  rw [hc] at h
+  simp only [Option.map_eq_some_iff] at h
+  obtain ⟨w, hw, rfl⟩ := h
+  exact ⟨rfl, rfl, hw⟩
+
 end Mx.Staking
